@@ -6,6 +6,7 @@ d="$1"; tier=${2:-quick}
 name=$(basename "$d"); pid=${name%%-*}
 wt=/tmp/evalwt-$name
 git -C /repo worktree remove --force $wt >/dev/null 2>&1
+rm -rf $wt; git -C /repo worktree prune
 git -C /repo worktree add --detach $wt HEAD >/dev/null 2>&1 || { echo "worktree failed"; exit 2; }
 cd $wt
 demo=$(ls $d/demo_test.py $d/demo*.py 2>/dev/null | head -1)
